@@ -32,9 +32,15 @@ Proof.
   - destruct (code x =? 47); [exact IH|reflexivity].
 Qed.
 
+Lemma trim_end_slash_eq s : trim_end_slash s = rev (trim_start_slash (rev s)).
+Proof. unfold trim_end_slash. now rewrite !rev_fast_eq. Qed.
+
+Lemma ends_with_slash_eq s : ends_with_slash s = starts_with_slash (rev s).
+Proof. unfold ends_with_slash. now rewrite rev_fast_eq. Qed.
+
 Lemma trim_end_cons c r : (code c =? 47) = false -> trim_end_slash (c :: r) = c :: trim_end_slash r.
 Proof.
-  intros H. unfold trim_end_slash. cbn [rev]. rewrite (trim_start_app_last _ _ H). apply rev_unit.
+  intros H. rewrite !trim_end_slash_eq. cbn [rev]. rewrite (trim_start_app_last _ _ H). apply rev_unit.
 Qed.
 
 Lemma trim_end_no_lead s : no_lead s -> no_lead (trim_end_slash s).
@@ -44,11 +50,11 @@ Proof.
 Qed.
 
 Lemma trim_end_idem s : trim_end_slash (trim_end_slash s) = trim_end_slash s.
-Proof. unfold trim_end_slash. now rewrite rev_involutive, trim_start_idem. Qed.
+Proof. rewrite !trim_end_slash_eq. now rewrite rev_involutive, trim_start_idem. Qed.
 
 Lemma trim_end_fix s : ends_with_slash s = false -> trim_end_slash s = s.
 Proof.
-  unfold ends_with_slash, trim_end_slash. intros H. rewrite (trim_start_fix _ H). apply rev_involutive.
+  rewrite ends_with_slash_eq, trim_end_slash_eq. intros H. rewrite (trim_start_fix _ H). apply rev_involutive.
 Qed.
 
 (** the trimmed form is a fixed point of both trims *)
@@ -101,7 +107,7 @@ Lemma split_no_slash a : forall r cur, existsb (fun x => code x =? 47) a = false
   split_slash (a ++ SL :: r) cur = (rev cur ++ a) :: split_slash r [].
 Proof.
   induction a as [|c a IH]; intros r cur H.
-  - cbn [app split_slash]. change (code SL =? 47) with true. cbv iota. now rewrite app_nil_r.
+  - cbn [app split_slash]. change (code SL =? 47) with true. cbv iota. now rewrite rev_fast_eq, app_nil_r.
   - cbn [existsb] in H. apply orb_false_iff in H as [Hc Ha].
     cbn [app split_slash]. rewrite Hc. rewrite (IH r (c :: cur) Ha). cbn [rev].
     now rewrite <- app_assoc.
@@ -141,7 +147,7 @@ Qed.
 
 Lemma trimmed_no_trailing lp : trim_end_slash lp = lp -> ends_with_slash lp = false.
 Proof.
-  unfold trim_end_slash, ends_with_slash. intros H.
+  rewrite trim_end_slash_eq, ends_with_slash_eq. intros H.
   assert (E : trim_start_slash (rev lp) = rev lp).
   { rewrite <- H at 2. now rewrite rev_involutive. }
   rewrite <- E. apply trim_start_no_lead.
@@ -157,9 +163,9 @@ Qed.
 Lemma content_path_no_trailing v cdir lp : lpath_try_from lp = Ok lp -> is_empty lp = false ->
   ends_with_slash (content_path v cdir lp) = false.
 Proof.
-  intros H Hne. unfold ends_with_slash. rewrite content_path_rev.
+  intros H Hne. rewrite ends_with_slash_eq. rewrite content_path_rev.
   rewrite starts_with_slash_app by (now apply rev_nonempty).
-  apply (trimmed_no_trailing lp). apply (lpath_fix _ _ H).
+  rewrite <- ends_with_slash_eq. apply (trimmed_no_trailing lp). apply (lpath_fix _ _ H).
 Qed.
 
 Lemma content_path_head v cdir lp : starts_with_slash (content_path v cdir lp) = false.
